@@ -3,6 +3,7 @@
 import Mpir.Model.AllocSafeMpz
 import MpirProofs.Lemmas.AllocSafe
 import Mathlib.Tactic.Set
+import MpirProofs.Lemmas.Kernels
 namespace Mpir.AllocSafe
 open Mpir
 open Mpir.Mpz (sgn diffSign Norm natAbs_sgn)
@@ -507,5 +508,132 @@ theorem mul_2exp_refines (s : St) (w u : Nat) (cnt : Nat) (hs : s.ok = true) (hw
       ((MPZ_REALLOC s w ((s.h u).size.natAbs + cnt / 64 + 1)).h w).buf.alloc := G.alloc.symm
     rw [halloc]
     exact B1.of_grown G
+
+/-! ## mpz_com -/
+
+theorem com_refines (s : St) (w u : Nat) (hs : s.ok = true) (hw : OWF (s.h w)) (hu : OWF (s.h u)) :
+    Refines s (com 1 s w u) w (Spec.com (view (s.h w)) (view (s.h u))) := by
+  unfold com Spec.com
+  simp only [St.SIZ]
+  have e1 : (view (s.h u)).size = (s.h u).size := rfl
+  rw [e1]
+  have hul := view_d_length hu
+  have hLu := view_limbs hu
+  by_cases hpos : (s.h u).size ≥ 0
+  · simp only [hpos, ↓reduceIte]
+    have G := MPZ_REALLOC_grown s w ((s.h u).size.natAbs + 1) hw
+    obtain ⟨ea, oka⟩ := grown_rd G u (s.h u).size.natAbs hu (Nat.le_refl _)
+    rw [List.take_of_length_le (by omega)] at ea
+    have hok1 : (MPZ_REALLOC s w ((s.h u).size.natAbs + 1)).ok = true := by rw [G.ok]; exact hs
+    have hbw := G.bwf w hw.1
+    have hroom := G.room
+    have halloc : (Mpz.grow (view (s.h w)) ((s.h u).size.natAbs + 1)).alloc =
+      ((MPZ_REALLOC s w ((s.h u).size.natAbs + 1)).h w).buf.alloc := G.alloc.symm
+    rw [halloc]
+    refine Refines.of_grown G ?_
+    unfold com_pos_body
+    by_cases h0 : (s.h u).size.natAbs = 0
+    · simp only [h0, beq_self_eq_true, if_true]
+      have := set1_refines _ w 1 true hok1 hbw (by omega) (by unfold B; omega)
+      simpa [h0] using this
+    · have h0' : ((s.h u).size.natAbs == 0) = false := by simpa using h0
+      have hne : (view (s.h u)).d ≠ [] := by intro h; rw [h] at hul; simp at hul; omega
+      obtain ⟨_, ac, al, an⟩ := Mpz.K.add_1_val _ 1 hLu (by unfold B; omega) hne
+      simp only [h0', Bool.false_eq_true, if_false, mpn_add_1, ea, oka]
+      by_cases hcy : (Mpir.add_1 (view (s.h u)).d 1).2 = 0
+      · simp only [hcy, bne_self_eq_false, Bool.false_eq_true, if_false]
+        have T := tail_take _ w (Mpir.add_1 (view (s.h u)).d 1).1 (sgn true (s.h u).size.natAbs) true hok1 rfl hbw al
+          (by omega) (by rw [natAbs_sgn]; omega)
+        rw [natAbs_sgn, List.take_of_length_le (by omega)] at T
+        exact T
+      · have hcy' : ((Mpir.add_1 (view (s.h u)).d 1).2 != 0) = true := by simpa using hcy
+        simp only [hcy', if_true]
+        have T := tail_carry _ w (Mpir.add_1 (view (s.h u)).d 1).1 (Mpir.add_1 (view (s.h u)).d 1).2
+          ((s.h u).size.natAbs + 1) true true hok1 rfl hbw al (by have := B_eq; omega) (by omega) (by omega)
+        rw [List.take_of_length_le (by simp; omega)] at T
+        simp only [an, hul] at T
+        exact T
+  · simp only [hpos, ↓reduceIte]
+    have G := MPZ_REALLOC_grown s w (s.h u).size.natAbs hw
+    obtain ⟨ea, oka⟩ := grown_rd G u (s.h u).size.natAbs hu (Nat.le_refl _)
+    rw [List.take_of_length_le (by omega)] at ea
+    have hok1 : (MPZ_REALLOC s w (s.h u).size.natAbs).ok = true := by rw [G.ok]; exact hs
+    have hbw := G.bwf w hw.1
+    have hroom := G.room
+    have halloc : (Mpz.grow (view (s.h w)) (s.h u).size.natAbs).alloc =
+      ((MPZ_REALLOC s w (s.h u).size.natAbs).h w).buf.alloc := G.alloc.symm
+    rw [halloc]
+    refine Refines.of_grown G ?_
+    have hne : (view (s.h u)).d ≠ [] := by intro h; rw [h] at hul; simp at hul; omega
+    have SUB := aors_ui_sub_refines true _ w u (view (s.h u)).d 1 hok1 hbw hLu hne (by unfold B; omega) (by omega)
+      (by rw [hul]; exact ea) (by rw [hul]; exact oka)
+    rw [hul] at SUB
+    simpa [aors_ui_sub, com_neg_body] using SUB
+
+/-! ## mpz_tdiv_q_2exp -/
+
+/-- after `MPZ_REALLOC (w, n)`, `(PTR (x) + k)[0, m)` for k + m ≤ |SIZ x| -/
+theorem grown_rd_off {s s' : St} {w n : Nat} (G : Grown s s' w n) (x k m : Nat) (hx : OWF (s.h x))
+    (hk : k + m ≤ (s.h x).size.natAbs) :
+    s'.rd ((s'.PTR x).add k) m = ((view (s.h x)).d.drop k).take m ∧ s'.rdOk ((s'.PTR x).add k) m = true := by
+  have hfit := view_fit hx
+  refine ⟨?_, ?_⟩
+  · rw [rd_PTR_add]
+    have h1 := G.take x (k + m) hx.1 (by omega)
+    have : ((s'.h x).buf.limbs.drop k).take m = ((s'.h x).buf.limbs.take (k + m)).drop k := by
+      rw [List.drop_take]; congr 1; omega
+    rw [this, h1]
+    simp only [view]
+    rw [List.drop_take, List.drop_take, List.take_take]
+    congr 1; omega
+  · rw [rdOk_PTR_add]; have := G.mono x; simp; omega
+
+theorem tdiv_q_2exp_refines (s : St) (w u : Nat) (cnt : Nat) (hs : s.ok = true) (hw : OWF (s.h w)) (hu : OWF (s.h u)) :
+    Refines s (mpz_tdiv_q_2exp s w u cnt) w (Spec.tdiv_q_2exp (view (s.h w)) (view (s.h u)) cnt) := by
+  unfold mpz_tdiv_q_2exp Spec.tdiv_q_2exp
+  simp only [St.SIZ]
+  have e1 : (view (s.h u)).size = (s.h u).size := rfl
+  rw [e1]
+  have hul := view_d_length hu
+  have hLu := view_limbs hu
+  by_cases hle : (s.h u).size.natAbs ≤ cnt / 64
+  · simp only [hle, ↓reduceIte]
+    refine ⟨by simpa using hs, by simp [view], by simpa using hw.1, fun x hx => setSize_other _ _ _ hx⟩
+  · simp only [hle, ↓reduceIte]
+    have G := MPZ_REALLOC_grown s w ((s.h u).size.natAbs - cnt / 64) hw
+    obtain ⟨ea, oka⟩ := grown_rd_off G u (cnt / 64) ((s.h u).size.natAbs - cnt / 64) hu (by omega)
+    rw [List.take_of_length_le (by simp; omega)] at ea
+    have hok1 : (MPZ_REALLOC s w ((s.h u).size.natAbs - cnt / 64)).ok = true := by rw [G.ok]; exact hs
+    have hbw := G.bwf w hw.1
+    have hroom := G.room
+    have halloc : (Mpz.grow (view (s.h w)) ((s.h u).size.natAbs - cnt / 64)).alloc =
+      ((MPZ_REALLOC s w ((s.h u).size.natAbs - cnt / 64)).h w).buf.alloc := G.alloc.symm
+    rw [halloc]
+    refine Refines.of_grown G ?_
+    have hLd : Limbs ((view (s.h u)).d.drop (cnt / 64)) := Limbs_drop hLu _
+    have hdl : ((view (s.h u)).d.drop (cnt / 64)).length = (s.h u).size.natAbs - cnt / 64 := by simp; omega
+    unfold tdiv_q_2exp_body
+    by_cases h0 : cnt % 64 = 0
+    · simp only [h0, bne_self_eq_false, Bool.false_eq_true, if_false, MPN_COPY, ea, oka]
+      have T := tail_take _ w ((view (s.h u)).d.drop (cnt / 64)) (sgn (decide ((s.h u).size < 0)) ((s.h u).size.natAbs - cnt / 64))
+        true hok1 rfl hbw hLd (by omega) (by rw [natAbs_sgn]; omega)
+      rw [natAbs_sgn, List.take_of_length_le (by omega)] at T
+      exact T
+    · have h0' : (cnt % 64 != 0) = true := by simpa using h0
+      simp only [h0', if_true, mpn_rshift, ea, oka]
+      have hc : cnt % 64 < 64 := Nat.mod_lt _ (by omega)
+      obtain ⟨x, xs, hxs⟩ : ∃ x xs, (view (s.h u)).d.drop (cnt / 64) = x :: xs := by
+        cases h : (view (s.h u)).d.drop (cnt / 64) with
+        | nil => rw [h] at hdl; simp at hdl; omega
+        | cons x xs => exact ⟨x, xs, rfl⟩
+      obtain ⟨_, _, rl, rn, _, _⟩ := Mpir.rshift_val' x xs (cnt % 64) (by rw [← hxs]; exact hLd) (by omega) (by omega)
+      rw [← hxs] at rl rn
+      have hne : (Mpir.rshift ((view (s.h u)).d.drop (cnt / 64)) (cnt % 64)).1 ≠ [] := by
+        intro h; rw [h] at rn; simp at rn; omega
+      obtain ⟨hld, R⟩ := tail_strip _ w (Mpir.rshift ((view (s.h u)).d.drop (cnt / 64)) (cnt % 64)).1
+        (decide ((s.h u).size < 0)) true hok1 rfl hbw rl (by omega) hne
+      simp only [rn, hdl] at hld R
+      simp only [hld] at R ⊢
+      exact R
 
 end Mpir.AllocSafe
